@@ -123,6 +123,16 @@ impl Encoder {
             process_encoding_step(&mut self.steps, step, packet, dest)?;
         }
 
+        // steps with nothing left to write (empty strings, empty payloads) are complete no matter
+        // how much room is left; otherwise a packet whose bytes are all written still looks unfinished
+        while let Some(step) = self.steps.front() {
+            if !is_encoding_step_empty(step, packet) {
+                break;
+            }
+
+            self.steps.pop_front();
+        }
+
         if capacity != dest.capacity() {
             panic!("Encoder::encode: encoding logic resized dest buffer");
         }
@@ -593,6 +603,17 @@ fn encode_vli(value: u32, dest: &mut Vec<u8>) -> GneissResult<()> {
     }
 
     Ok(())
+}
+
+fn is_encoding_step_empty(step: &EncodingStep, packet: &MqttPacket) -> bool {
+    match step {
+        EncodingStep::StringSlice(getter, offset) => { getter(packet).len() <= *offset }
+        EncodingStep::BytesSlice(getter, offset) => { getter(packet).len() <= *offset }
+        EncodingStep::IndexedString(getter, index, offset) => { getter(packet, *index).len() <= *offset }
+        EncodingStep::UserPropertyName(getter, index, offset) => { getter(packet, *index).name.len() <= *offset }
+        EncodingStep::UserPropertyValue(getter, index, offset) => { getter(packet, *index).value.len() <= *offset }
+        _ => { false }
+    }
 }
 
 fn process_byte_slice_encoding(bytes: &[u8], offset: usize, dest: &mut Vec<u8>) -> usize {
